@@ -315,25 +315,23 @@ func (p *pool) wait() []Result {
 				defer func() { <-sem }()
 				r := &p.results[i]
 				base := fileBase(r.Obl.Name)
-				seen := map[string]bool{}
+				timedOut := map[string]bool{}
 				for _, a := range r.Attempts {
-					if a.Verdict != "timeout" || seen[a.Solver] {
+					if a.Verdict == "timeout" {
+						timedOut[a.Solver] = true
+					}
+				}
+				// cvc5 first: the obligations that need the second attempt are mostly the quantifier-heavy ones it decides
+				for _, sp := range []solverSpec{solverCVC5, solverZ3New, solverZ3Old, solverZ3NewAuto, solverZ3OldAuto} {
+					if !timedOut[sp.name] {
 						continue
 					}
-					seen[a.Solver] = true
-					for _, sp := range []solverSpec{solverZ3New, solverZ3Old, solverCVC5, solverZ3NewAuto, solverZ3OldAuto} {
-						if sp.name != a.Solver {
-							continue
-						}
-						b := runOne(sp, p.dir, base, r.Obl.Query, 3*p.timeout)
-						b.Out = "retry after the pool drained: " + b.Out
-						r.Attempts = append(r.Attempts, b)
-						r.Secs += b.Secs
-						if b.Verdict == "unsat" || b.Verdict == "sat" {
-							r.Verdict, r.Solver = b.Verdict, b.Solver
-						}
-					}
-					if r.Verdict == "unsat" || r.Verdict == "sat" {
+					b := runOne(sp, p.dir, base, r.Obl.Query, 3*p.timeout)
+					b.Out = "retry after the pool drained: " + b.Out
+					r.Attempts = append(r.Attempts, b)
+					r.Secs += b.Secs
+					if b.Verdict == "unsat" || b.Verdict == "sat" {
+						r.Verdict, r.Solver = b.Verdict, b.Solver
 						break
 					}
 				}
